@@ -332,7 +332,13 @@ def rule_segments(ctx):
     E.ipport_pairing(ctx, ctx.program, "R3", ("huginn_net_tls",))
 
 
+def rule_reset(ctx):
+    from . import _reset as RS
+    RS.reset_complete(ctx, ctx.program, "R2", "TlsClientHelloReader")
+
+
 def run(ctx):
+    rule_reset(ctx)
     rule_segments(ctx)
     rule_reader(ctx)
     rule_flow(ctx)
